@@ -64,9 +64,12 @@ def configs(tier):
     return out
 
 
-def _verdict_ok(m, op, claimed, x, y, exact):
-    """Formula: the claimed boolean is not clearly wrong for physical values x, y."""
-    d = m.tol_term() * (m.abs(x) + m.abs(y)) if not exact else 0
+def _verdict_ok(m, op, claimed, x, y, exact, tol=None):
+    """Formula: the claimed boolean is not clearly wrong for physical values x, y.
+    tol: fixed relative dead band (units whose published values differ between sources); default: the
+    tolerance placeholder (1e-9 in proofs, wider when a replayable counterexample is searched)."""
+    band = m.tol_term() if tol is None else (tol if not m.symbolic else __import__("symx.core", fromlist=["x"]).realval(tol))
+    d = band * (m.abs(x) + m.abs(y)) if not exact else 0
     lt_clear, gt_clear = (x < y - d), (x > y + d)
     if exact:
         eq_clear, ne_clear = (x == y), m.Not(x == y)
@@ -92,6 +95,7 @@ def body(m, cfg):
     if op in LOG:
         return _logical(m, cfg, op, sa, sb)
     dta, dtb, rhs = cfg["dta"], cfg["dtb"], cfg["rhs"]
+    m.dtype_tol(dta, dtb)
     tag = f"{op}:{C.DT_SHORT[dta]}:{rhs}:{C.DT_SHORT[dtb]}"
     a = Array(m.array("a", sa, dta), unit=cfg["ua"])
     fa, da = C.fd(cfg["ua"])
@@ -132,10 +136,11 @@ def body(m, cfg):
     if len(rv) != len(ia):
         return
     exact = (cfg["ua"] == cfg["ub"])
+    tolu = C.tol_for(cfg["ua"], cfg["ub"])
     fs = []
     for claimed, i, j in zip(rv, ia, ib):
         x, y = m.t(av[i]) * fa, m.t(bv[j]) * fb
-        fs.append(_verdict_ok(m, op, claimed, x, y, exact))
+        fs.append(_verdict_ok(m, op, claimed, x, y, exact, tol=tolu))
     m.check("verdicts agree with the physical comparison", m.And(fs), key=f"verdict:{tag}")
     m.require(C.unchanged(m, a, snap_a), "operand unchanged", key=f"operands-changed:{tag}")
 
